@@ -144,11 +144,16 @@ def gen_sheet_case(rng, idx, nmax):
             "factor": rng.choice([2.0, 0.5, 1.7, 10.0, round(rng.uniform(0.2, 5.0), 3)])}
 
 
+def rng_top(case):
+    """A size in the top quarter of the range, derived from the case's own seed."""
+    return 450 + case["npseed"] % 151
+
+
 def build_sheet(case):
     rs = np.random.RandomState(case["npseed"])
     n, h, deg = case["n"], case["h"], case["deg"]
     n0 = case["unlabelled"]
-    n1 = (n - n0) // 2 + int(rs.randint(-2, 3))
+    n1 = int(round((n - n0) * case.get("frac1", 0.5))) + int(rs.randint(-2, 3))     # uneven labelling when frac1 != 0.5
     n1 = max(3, min(n - n0 - 3, n1))
     n2 = n - n0 - n1
     rc = h * math.tan(math.radians(deg))                        # cone radius at the other sheet
@@ -454,7 +459,11 @@ def run(ctx):
             k = min(batch, total - done)
             cases = [gen_sheet_case(ctx.rng, done + i + 1, nmax) for i in range(k)]
             if done == 0:
-                cases[0]["n"] = 600 if not ctx.quick else nmax       # the upper end of the quantifier is always present
+                # the upper end of the quantifier is always present, in both tiers: 600 points, unevenly labelled, so that
+                # either direction has 300+ / 250+ source points, dense enough for conflicts (Maximal / NoCloserFree bite)
+                cases[0].update(n=600, frac1=0.55, lam=3.0, maxf=1.5, unlabelled=0, wrong=0.0)
+                cases[1].update(n=600, frac1=0.45, lam=2.0, maxf=1.2, unlabelled=3, wrong=0.05)
+                cases[2].update(n=rng_top(cases[2]), frac1=0.6, lam=1.5, maxf=1.5)
             # binding demonstration (self-test only): VERIF_C20_CORRUPT=field|swap_call corrupts one recorded field /
             # swaps the direction flag of the base call in the first batch - the check must then report violations
             run_sheets(ctx, cases, corrupt=(os.environ.get("VERIF_C20_CORRUPT") or None) if done == 0 else None)
